@@ -1921,6 +1921,17 @@ func (x *Exec) step(p *Path, in ssa.Instruction) {
 				set(in, sv)
 				return
 			}
+			if et := boxElem(in.X.Type()); et != nil && xv.K == KScalar {
+				// pointer to a non-struct value held in the heap (e.g. *pqImpl): one pseudo field per pointee type
+				x.checkNonNil(p, xv.S, in.X.Name())
+				v := e.loadField(p, nil, xv.S, typeKey(in.X.Type()), boxField, et)
+				if v.T == nil {
+					v.T = in.Type()
+				}
+				e.assumeRange(p, v)
+				set(in, v)
+				return
+			}
 			// pointer to a scalar we do not track
 			v := e.freshVal(p, in.Type(), "deref")
 			set(in, v)
@@ -1958,6 +1969,14 @@ func (x *Exec) step(p *Path, in ssa.Instruction) {
 					}
 					e.storeField(p, av.S, tkey, f.Name(), f.Type(), vv.Fs[i])
 				}
+				return
+			}
+			if et := boxElem(in.Addr.Type()); et != nil && av.K == KScalar {
+				x.checkNonNil(p, av.S, in.Addr.Name())
+				if vv.K == KSlice && vv.Off != "0" {
+					x.oblige(p, "model", "field_slice_offset0", eq(vv.Off, "0"), nil, "heap model: a slice stored behind a pointer starts at offset 0 of its backing array")
+				}
+				e.storeField(p, av.S, typeKey(in.Addr.Type()), boxField, et, vv)
 				return
 			}
 			e.note("store through untracked pointer in " + fr.fn.String())
